@@ -596,6 +596,10 @@ func loc(fset *token.FileSet, pos token.Pos) string {
 // callSSA interprets a call to function fn with arguments args,
 // and lexical environment env, returning its result.
 // callpos is the position of the callsite.
+// interpretBody is returned by an intrinsic that declines a call: the function's real SSA body is
+// interpreted instead.
+type interpretBody struct{}
+
 func callSSA(i *interpreter, caller *frame, callpos token.Pos, fn *ssa.Function, args []value, env []value) value {
 	if i.mode&EnableTracing != 0 {
 		fset := fn.Prog.Fset
@@ -623,7 +627,13 @@ func callSSA(i *interpreter, caller *frame, callpos token.Pos, fn *ssa.Function,
 				if i.opts.Observe != nil && i.opts.Observe[d.name] {
 					i.path.observeCall(d.name, args)
 				}
-				return d.ext(fr, args)
+				if r := d.ext(fr, args); r != (interpretBody{}) {
+					return r
+				}
+				// the intrinsic declined (it only covers concrete data): run the real body
+				if fn.Blocks == nil {
+					panic(engineError{"no code for function: " + fn.String() + " (called from " + callerName(caller) + ")"})
+				}
 			case d.redirect != nil:
 				return callSSA(i, caller, callpos, d.redirect, args, nil)
 			case d.observe || d.stop:
